@@ -141,10 +141,22 @@ func (o *attributeSlice) Call(c px.Context, method px.ObjFunc, args []px.Value, 
 }
 
 func (o *attributeSlice) Equals(other interface{}, g px.Guard) bool {
-	if ov, ok := other.(*attributeSlice); ok {
-		return o.typ.Equals(ov.typ, g) && px.Equals(o.values, ov.values, g)
+	ov, ok := other.(*attributeSlice)
+	if !(ok && o.typ.Equals(ov.typ, g)) {
+		return false
 	}
-	return false
+	// Instances are equal when their equality attributes are. Values are read by name since the
+	// value slice of an instance may or may not include trailing default values.
+	pi := o.typ.AttributesInfo()
+	for _, idx := range pi.EqualityAttributeIndex() {
+		n := pi.Attributes()[idx].Name()
+		a, _ := o.Get(n)
+		b, _ := ov.Get(n)
+		if !px.Equals(a, b, g) {
+			return false
+		}
+	}
+	return true
 }
 
 func (o *attributeSlice) String() string {
